@@ -3,8 +3,11 @@ package main
 import (
 	"encoding/json"
 	"fmt"
+	"runtime/debug"
+	"time"
 
 	biscuit "github.com/biscuit-auth/biscuit-go/v2"
+	"github.com/biscuit-auth/biscuit-go/v2/datalog"
 	pw "google.golang.org/protobuf/encoding/protowire"
 )
 
@@ -96,9 +99,12 @@ func runPolCorrupt(c *PolCase) (res interface{}, herr error) {
 		defer func() {
 			if r := recover(); r != nil {
 				out["panic"] = fmt.Sprint(r)
+				out["stack"] = trunc(string(debug.Stack()), 3000)
 			}
 		}()
-		f, err := tok.AuthorizerFor(biscuit.WithSingularRootPublicKey(pub))
+		// a generous duration: with the 2 ms default the evaluation below times out under machine load, and what follows then
+		// depends on the scheduling of the evaluation goroutine that is still running (see DESIGN.md 12.4)
+		f, err := tok.AuthorizerFor(biscuit.WithSingularRootPublicKey(pub), biscuit.WithWorldOptions(datalog.WithMaxDuration(20*time.Second)))
 		if err != nil {
 			return
 		}
